@@ -429,27 +429,39 @@ fn main() {
                     Stdout::Fixed(s) => s.as_bytes().to_vec(),
                     Stdout::Irrelevant => b"<stdout must not be used>".to_vec(),
                 };
-                if class == "formatted" && matches!(f.stdout, Stdout::Irrelevant) {
-                    fails.push(Fail { kind: "model", case: case.clone(), detail: "model predicts `formatted` for a fault that must fall back".into(), script: f.script.clone() });
+                // the property's own expectation, independent of the model: a fault must fall back to
+                // the unformatted bytes; success / partial success yields prefix + the child's stdout
+                let oracle_expected: Vec<u8> = match f.stdout {
+                    Stdout::Irrelevant => none_bytes.clone(),
+                    _ => [prefix.as_bytes(), &child_out[..]].concat(),
+                };
+                let model_expected = subst(&tmpl, &source, &child_out);
+                let model_agrees_with_property = model_expected == oracle_expected && (class == "fallback") == matches!(f.stdout, Stdout::Irrelevant);
+                if !model_agrees_with_property {
+                    fails.push(Fail { kind: "model", case: case.clone(), detail: format!("the model predicts `{class}` ({} bytes) but the property demands {} ({} bytes)", model_expected.len(), if matches!(f.stdout, Stdout::Irrelevant) { "fallback" } else { "formatted" }, oracle_expected.len()), script: f.script.clone() });
                 }
-                let expected = subst(&tmpl, &source, &child_out);
                 match &obs {
                     Observed::Ok(bytes) => {
                         let obs_class = if *bytes == none_bytes { "fallback" } else { "formatted" };
                         *hist.entry(format!("observed:{obs_class}")).or_insert(0) += 1;
-                        if *bytes != expected {
-                            let kind = if obs_class != class { "class" } else { "bytes" };
-                            fails.push(Fail { kind, case: case.clone(), detail: format!("predicted {class} ({} bytes), observed {obs_class} ({} bytes); first difference at byte {}; observed starts {:?}", expected.len(), bytes.len(), first_diff(bytes, &expected), String::from_utf8_lossy(&bytes[..bytes.len().min(160)])), script: f.script.clone() });
-                        } else if class == "fallback" {
-                            // token-identical: same bytes as the unformatted text, hence same tokens (checked on the small input)
-                            if size_name == "small" && tokens(&String::from_utf8_lossy(bytes)) != tokens(&String::from_utf8_lossy(&none_bytes)) {
+                        if *bytes != oracle_expected {
+                            let want_class = if matches!(f.stdout, Stdout::Irrelevant) { "fallback" } else { "formatted" };
+                            let kind = if obs_class != want_class { "class" } else { "bytes" };
+                            fails.push(Fail { kind, case: case.clone(), detail: format!("expected {want_class} ({} bytes), observed {obs_class} ({} bytes); first difference at byte {}; observed starts {:?}", oracle_expected.len(), bytes.len(), first_diff(bytes, &oracle_expected), String::from_utf8_lossy(&bytes[..bytes.len().min(160)])), script: f.script.clone() });
+                        }
+                        if *bytes != model_expected && model_agrees_with_property {
+                            fails.push(Fail { kind: "model", case: case.clone(), detail: format!("implementation differs from the model's prediction `{class}` at byte {}", first_diff(bytes, &model_expected)), script: f.script.clone() });
+                        }
+                        if *bytes == oracle_expected && want_tokens_check(size_name) && matches!(f.stdout, Stdout::Irrelevant) {
+                            // token-identical: same bytes as the unformatted text, hence same tokens
+                            if tokens(&String::from_utf8_lossy(bytes)) != tokens(&String::from_utf8_lossy(&none_bytes)) {
                                 fails.push(Fail { kind: "tokens", case: case.clone(), detail: "fallback text tokenises differently".into(), script: f.script.clone() });
                             }
                         }
                     }
                     o => {
                         *hist.entry(format!("observed:{}", match o { Observed::Error(_) => "error", Observed::Panic(_) => "panic", Observed::Setup(_) => "setup", _ => "hang" })).or_insert(0) += 1;
-                        fails.push(Fail { kind: "class", case: case.clone(), detail: format!("predicted {class}, observed {:?} after {secs:.1}s", short(o)), script: f.script.clone() });
+                        fails.push(Fail { kind: "class", case: case.clone(), detail: format!("write must succeed; observed {:?} after {secs:.1}s (model: {class})", short(o)), script: f.script.clone() });
                     }
                 }
                 // arguments the child was started with
@@ -577,6 +589,10 @@ fn main() {
     println!("c15: evaluations={} distinct={} failures={} max_write_seconds={:.1}", evaluations, distinct.len(), fails.len(), max_secs);
     // threads of hung writes (if any) must not keep the process alive
     std::process::exit(0);
+}
+
+fn want_tokens_check(size: &str) -> bool {
+    size == "small"
 }
 
 fn first_diff(a: &[u8], b: &[u8]) -> usize {
